@@ -29,12 +29,27 @@ PY = os.environ.get("PRAATIO_PY", "/venv/bin/python")
 ALL = ["C%02d" % i for i in range(1, 21)]
 
 
-def child_env():
+PROCESS_ENVIRONMENTS = {
+    # shard index (counted from the last shard) -> (name, environment): the same workload under another process environment,
+    # since a library may lean on process-wide defaults (locale encoding of open(), the warnings filter)
+    1: ("warnings-as-errors", {"PYTHONWARNINGS": "error::UserWarning"}),
+    2: ("ascii-locale", {"LC_ALL": "C", "LANG": "C", "PYTHONUTF8": "0", "PYTHONCOERCECLOCALE": "0"}),
+}
+
+
+def child_env(shard=None, nshards=None):
     env = dict(os.environ)
     env["PYTHONHASHSEED"] = "0"
     env["PYTHONDONTWRITEBYTECODE"] = "1"
     env["PYTHONPATH"] = "%s:%s" % (REPO, ROOT)
     env["PRAATIO_VERIF"] = "1"
+    for k in ("PYTHONWARNINGS", "PYTHONUTF8", "PYTHONCOERCECLOCALE"):
+        env.pop(k, None)
+    if shard is not None and nshards and nshards >= 4 and shard >= 0:
+        name, extra = PROCESS_ENVIRONMENTS.get(nshards - shard, (None, None))
+        if name:
+            env.update(extra)
+            env["VERIF_PROCESS_ENV"] = name
     return env
 
 
@@ -62,6 +77,7 @@ def run_shard(args):
     rng = random.Random(seed)
     status = "ok"
     t0 = time.time()
+    core.REC.cls("process-environment:%s" % os.environ.get("VERIF_PROCESS_ENV", "default"))
     try:
         mod.install()
         if args.shard < 0:
@@ -132,7 +148,7 @@ def run_property(prop, tier, seed, nshards=None, quiet=False):
         cmd = [PY, "-B", str(ROOT / "check.py"), "--shard-worker", prop, "--tier", tier,
                "--seed", str(seed), "--shard", str(i), "--nshards", str(n), "--out", str(out)]
         log = open(tmp / ("shard%d.log" % i), "w")
-        procs.append((i, out, subprocess.Popen(cmd, env=child_env(), stdout=log, stderr=subprocess.STDOUT, cwd=str(ROOT)), log))
+        procs.append((i, out, subprocess.Popen(cmd, env=child_env(i, n), stdout=log, stderr=subprocess.STDOUT, cwd=str(ROOT)), log))
     if tier == "thorough" or os.environ.get("VERIF_REPO_TESTS") == "1":
         out = tmp / "shard_tests.json"
         cmd = [PY, "-B", str(ROOT / "check.py"), "--shard-worker", prop, "--tier", tier, "--seed", str(seed), "--shard", "-1", "--nshards", str(n), "--out", str(out)]
@@ -306,8 +322,18 @@ def replay(prop, path):
     sys.path.insert(0, str(ROOT))
     os.environ.setdefault("PYTHONHASHSEED", "0")
     sys.path.insert(0, str(REPO))
-    mod = load(prop)
     v = json.loads(Path(path).read_text())
+    want = v.get("process_env") or "default"
+    if want != os.environ.get("VERIF_PROCESS_ENV", "default") and not os.environ.get("VERIF_REPLAY_CHILD"):
+        # the case was observed under another process environment: replay it there
+        env = child_env()
+        for _k, (name, extra) in PROCESS_ENVIRONMENTS.items():
+            if name == want:
+                env.update(extra)
+                env["VERIF_PROCESS_ENV"] = name
+        env["VERIF_REPLAY_CHILD"] = "1"
+        return subprocess.call([PY, "-B", str(ROOT / "check.py"), prop, "--replay", str(path)], env=env, cwd=str(ROOT))
+    mod = load(prop)
     from vmon import core
 
     mod.install()
